@@ -1,5 +1,5 @@
 SPECIFICATION Spec
-CONSTANTS Fams = {"conv","arith","neg","cmp","truth","dec","hex","mixed","opasg","vararg","d2l","d2r","chl","chr"}
+CONSTANTS Fams = {"conv","arith","neg","cmp","truth","dec","hex","mixed","opasg","vararg","d2l","d2r","chl","chr","tcv","tar","lim","szof"}
  Seed = 0
  Stride = 1
 CHECK_DEADLOCK FALSE
